@@ -6,7 +6,7 @@ import ast
 from ..consteval import ConstEval, EnumMember, FuncEval, NotConst, Raised, Sym
 from ..core import AnalysisError, own_nodes, short, unparse
 from ..oracles import cea608 as oracle
-from ..rules import dsp
+from ..rules import dsp, match
 from . import common
 
 EXPLANATION = (
@@ -21,6 +21,8 @@ EXPLANATION = (
   "value tuple contains the word', both bytes pass through the parity mask before any classification and every constructor path "
   "goes through from_bytes; (DSP) the disassembler has a branch for every code class and every path returns a string."
   " (STATE-alias / STATE-global) no function of the anchored modules mutates a module- or class-level container, rebinds module / class state or mutates a mutable default argument, so a result never depends on earlier calls;"
+  ' (CLS-disjoint) no 16-bit word is claimed by two code classes; (FIN-is-code / FIN-channel / FIN-parity / FIN-midrow / FIN-pac-bits / FIN-pac-row) the predicates and bit-field decoders, evaluated on every word of their domain, equal the CEA-608 bit layout oracle;'
+  ' (TAB-standard / TAB-special / TAB-extended / TAB-control / TAB-attribute / TAB-midrow / TAB-colors / TAB-rows) the value tables equal the oracle tables; (DSP-disasm / DSP-disasm-colors) the disassembler names every code class and colour;'
 )
 RULE_TEXT = "per table entry, per helper x domain point (aggregated per helper), per word (aggregated), per structural shape"
 UNDECIDED = ["nothing of substance; the glyph choice for six line-drawing/dash extended characters admits light or heavy Unicode forms",
@@ -213,14 +215,15 @@ def check_shapes(ctx):
   ctx.check(not bad, "FIN-parity", "SccWord._decipher_parity_bit|all 256 bytes", ctx.where(w.module, dp.node),
             "strips exactly bit 7 for all 256 byte values", f"_decipher_parity_bit is wrong for bytes {[hex(b) for b in bad[:6]]}")
   fb = w.methods["from_bytes"]
-  masked = set()
-  for st in own_nodes(fb.node):
-    if isinstance(st, ast.Assign) and isinstance(st.value, ast.Call) and "_decipher_parity_bit" in unparse(st.value.func) \
-        and isinstance(st.targets[0], ast.Name) and unparse(st.value.args[0]) == st.targets[0].id:
-      masked.add(st.targets[0].id)
-  ret = [n for n in own_nodes(fb.node) if isinstance(n, ast.Return)]
-  ctor_ok = len(ret) == 1 and isinstance(ret[0].value, ast.Call) and unparse(ret[0].value.func) == "SccWord" \
-    and [unparse(a) for a in ret[0].value.args] == fb.params[:2] and set(fb.params[:2]) <= masked
+  # the value returned on the path that does not raise, with the locals substituted: SccWord(mask(p1), mask(p2))
+  ctor_ok = False
+  try:
+    kind, rexpr = match.path_result(fb.node, lambda test: False)
+    if kind == "return" and isinstance(rexpr, ast.Call) and unparse(rexpr.func) == "SccWord" and len(rexpr.args) == 2 and not rexpr.keywords:
+      ctor_ok = all(isinstance(a, ast.Call) and "_decipher_parity_bit" in unparse(a.func) and len(a.args) == 1 and unparse(a.args[0]) == p
+                    for a, p in zip(rexpr.args, fb.params[:2]))
+  except match.PathUndecided as e:
+    raise AnalysisError(f"SccWord.from_bytes: {e}")
   ctx.check(ctor_ok, "SHAPE", "SccWord.from_bytes|both bytes masked before construction", ctx.where(w.module, fb.node),
             "both bytes pass through the parity mask before SccWord(...)",
             "SccWord.from_bytes no longer strips the parity bit of both bytes before classification")
